@@ -50,7 +50,8 @@ pub fn parse_ignore(source: &Path, config: &Config) -> Result<Option<Gitignore>>
                 }
             }
             Ok(_) => {}
-            Err(e) if e.kind() == std::io::ErrorKind::NotFound => {}
+            // No ignore file; the latter when the source is not a directory.
+            Err(e) if matches!(e.kind(), std::io::ErrorKind::NotFound | std::io::ErrorKind::NotADirectory) => {}
             Err(e) => return Err(e.into()),
         }
         let ignore = builder.build()?;
